@@ -172,6 +172,22 @@ func c13CharProgram() *Prog {
 		}
 		body = append(body, &S{K: "print", Ln: true, Exprs: []*E{{K: "str", Ty: TString, S: "lit"}, lenOf(&E{K: "str", Ty: TString, S: s, Spell: sp}), {K: "str", Ty: TString, S: s, Spell: sp}}})
 	}
+	// the same characters between the quotes mean different bytes in an interpreted and in a raw literal:
+	// both spellings appear in one program (in both orders)
+	for i, inner := range []string{`a\tb`, `\n`, `\x41`, `\\`, `q\"`, `\u00e9`, `\101`} {
+		interp := "\"" + inner + "\""
+		raw := "`" + inner + "`"
+		is, err := strconv.Unquote(interp)
+		if err != nil {
+			fatalf("bad spelling %s", interp)
+		}
+		a := &E{K: "str", Ty: TString, S: is, Spell: interp}
+		b := &E{K: "str", Ty: TString, S: inner, Spell: raw}
+		if i%2 == 1 {
+			a, b = b, a
+		}
+		body = append(body, &S{K: "print", Ln: true, Exprs: []*E{{K: "str", Ty: TString, S: "pair"}, lenOf(a), lenOf(b), a, b, cmp("==", a, b)}})
+	}
 	p.Funcs = []*Func{{Name: "Main", Body: body}}
 	return p
 }
